@@ -412,3 +412,30 @@ Theorem C08_pages_arrive_with_foreign_calls : forall b a items s,
     /\ Forall VInv0 b' /\ map v_addr b' = map v_addr b.
 Proof. exact closed_send_pages_with_foreign_calls. Qed.
 Print Assumptions C08_pages_arrive_with_foreign_calls.
+
+(* ... and a source that also flips the pages of other signs.  The model bounds the polling loop of a flip by fuel and
+   reports running out of it as a panic ([Crashed]; for the real loop: still polling), hence the first alternative. *)
+Example C08_ex_flipping_source :
+  (let (b1, _) := run_bus (configure 5 Max3000Dash30x7) C08_ex_bus in
+   let (b2, o2) := run_bus (send_pages_with 5 [([CopLoadNext 4 3; CopShow 4 3], C08_ex_page)]) b1 in
+   (o2, map v_state b2, map v_pages b2))
+  = (Done Manual, [ConfigReceived; PageLoaded], [[]; [C08_ex_page]]).
+Proof. vm_compute. reflexivity. Qed.
+
+Theorem C08_pages_arrive_with_flip_calls : forall b a items s,
+  NoDup (map v_addr b) -> Forall VInv0 b -> target b a = Some s ->
+  receive_pixels_legal (v_state s) = true -> 0 < v_w s -> 0 < v_h s ->
+  Forall (fun p => p_w p = v_w s /\ p_h p = v_h s
+                   /\ nlen (p_bytes p) = total_bytes (v_w s) (v_h s)) (map snd items) ->
+  total_bytes (v_w s) (v_h s) <= 65536 ->
+  N.of_nat (length items) * (total_bytes (v_w s) (v_h s) / 16) < 65536 ->
+  Forall (fun it => Forall (foreign_flip_call a) (fst it)) items ->
+  snd (run_bus (send_pages_with a items) b) = Crashed
+  \/ exists b' s',
+       run_bus (send_pages_with a items) b = (b', Done (v_style s)) /\ target b' a = Some s'
+       /\ v_pages s' = map snd items
+       /\ v_state s' = match v_style s with Manual => PageLoaded | Automatic => ShowingPages end
+       /\ v_type s' = v_type s /\ (v_w s', v_h s') = (v_w s, v_h s)
+       /\ Forall VInv0 b' /\ map v_addr b' = map v_addr b.
+Proof. exact closed_send_pages_with_flip_calls. Qed.
+Print Assumptions C08_pages_arrive_with_flip_calls.
